@@ -43,8 +43,8 @@ Proof. vm_compute. repeat split; reflexivity. Qed.
 Example C16_witness_delete : snd (step false ws (ODelete 3)) = 0 /\ live_id ws 3 = true.
 Proof. vm_compute. split; reflexivity. Qed.
 
-(* the refutation on the pinned tree: the same mixed write is COMMITTED there *)
-Example C16_witness_refuted :
+(* documentation (tree before bbee457): the same mixed write was COMMITTED there *)
+Example C16_witness_prefix_refuted :
   mixed ws (OModify 4 [MSet 1 1; MSet 2 0]) = false
   /\ mixed ws (OModify 2 [MAdd 0 4; MAdd 0 1]) = true
   /\ snd (step false ws (OModify 2 [MAdd 0 4; MAdd 0 1])) = 0
@@ -52,8 +52,8 @@ Example C16_witness_refuted :
   /\ snd (step false ws (OModify 2 [MAdd 0 1])) = 3.              (* alone it is refused *)
 Proof. vm_compute. repeat split; reflexivity. Qed.
 
-(* hypotheses of the partial theorems: a history outside the known class *)
-Example C16_witness_clean_run :
+(* hypotheses of the _prefix partial theorems: a history outside the former class *)
+Example C16_witness_prefix_clean_run :
   clean_run ws [ODelete 0; ORevive 0; OModify 3 [MAdd 0 5]; ODelete 3; OPurgeRec] = true.
 Proof. vm_compute. reflexivity. Qed.
 
@@ -79,5 +79,5 @@ Example C16_witness_agree :
   let c := CHist (absS ws)
              [OStep (ODelete 0) 0 (absS (fst (step false ws (ODelete 0)))) 0;
               OStep (OModify 2 [MAdd 0 1]) 3 (absS (fst (step false ws (ODelete 0)))) 0] in
-  agree_gen false c = true /\ agree_gen true c = true /\ pcheck c = true /\ known_gen c = false.
+  agree c = true /\ agree_gen false c = true /\ pcheck c = true /\ known c = false /\ prefix_class c = false.
 Proof. vm_compute. repeat split; reflexivity. Qed.
